@@ -78,6 +78,17 @@ def isolated_verdict(cls, fname):
     return EXPECT[cls]
 
 
+_diag_cache = {}
+
+
+def isolated_diags(cls, fname):
+    k = (cls, fname)
+    if k not in _diag_cache:
+        r = impl.run_text(fname, content(cls, fname))
+        _diag_cache[k] = [(d[0], d[1], d[2], d[3]) for d in r.diags]
+    return _diag_cache[k]
+
+
 def real_isolated_verdict(cls, fname):
     """The verdict of the file computed in isolation by the real pipeline (must equal the class's construction)."""
     k = (cls, fname)
@@ -119,6 +130,20 @@ def judge(o, selected, cls_of):
     if got != want:
         probs.append(("verdict-lines", f"analysed {[os.path.basename(a) for a in o['analysed']]}: verdict lines {got}, "
                                        f"expected {want}"))
+    # each verdict block lists exactly the diagnostics the file has when analysed alone (a path named twice is
+    # analysed twice, each time with its own diagnostics)
+    if got == want:
+        try:
+            from . import c16
+            blocks = c16.parse(o["stdout"], False)
+        except Exception:  # noqa: BLE001
+            blocks = []
+        for name, _, ds in blocks:
+            if name in cls_of and isolated_verdict(cls_of[name], name) != "fatal":
+                alone = isolated_diags(cls_of[name], name)
+                if sorted(ds) != sorted(alone):
+                    probs.append(("block-diagnostics", f"{name}: the run lists {ds[:4]} ({len(ds)}), alone it has {alone[:4]} ({len(alone)})"))
+                    break
     all_ok = all(isolated_verdict(cls_of[n], n) == "OK" for n in selected)
     want_exit_zero = all_ok
     if (o["code"] == 0) != want_exit_zero:
